@@ -62,7 +62,7 @@ META = {
     "one run: sequences of the five mutators (repeated rules, nullary rules, one symbol number with several arities, final states without rules) interleaved with multi-step views: an iterator, GetAcceptTrans(), operator[](q) advanced one ++ per step while sharing copies are mutated or destroyed by this or other clients and read-only observers are called on the viewed automaton. The end of a view is tested with operator== and operator!= alternately; both are evaluated and must be complementary. Oracle: each view yields exactly the model's rules, each once; ContainsTransition, GetUsedStates, GetFinalStates, IsStateFinal, AreTransitionsEmpty by definition on the model.",
     ["a client never mutates an automaton it is iterating"], Q),
  "C13": _m("fault_enumeration",
-    "systematic part: for every small text shipped in automata/small_timbuk and automata/fail_timbuk (read through the real Util::ReadFile) EVERY truncation point 0..n, EVERY single-line drop / duplication / adjacent swap and EVERY zero-filled tail is applied and the damaged text is given to ParseString and to the loaders of all four encodings (run index -> work item, 48 faults per item). Sampled part: generated descriptions (names from the full legal character set, nullary rules with and without parentheses, empty sections) get a strict round trip (parse, serialise+parse, load+dump per encoding, dump/load fix-point), then their complete single-fault space, then sampled byte flips, random byte strings and splices; the load / dump pair is drawn per text from the name-preserving overloads (text or parsed description; dictionary or weak translator over a dictionary; dump through a dictionary, a strict back-translator or DumpToAutDesc + Serialize); in half of the sampled runs a second client runs a short history of explicit, word or BDD automata (value operations and the library's operations), dumps several handles, is usually aborted, and every completed dump is reloaded: what comes back must be what was dumped (word automata: also the start states as GetStartStates() reports them). Oracle for damaged text: the call returns or throws a std::exception, within the tick budget, no monitor fires, every other live handle is untouched, and on success (all names expressible) dump/load/dump is a fix-point. One evaluation = one run; distinct non-trivial = distinct damaged texts.",
+    "systematic part: for every small text shipped in automata/small_timbuk and automata/fail_timbuk (read through the real Util::ReadFile) EVERY truncation point 0..n, EVERY single-line drop / duplication / adjacent swap and EVERY zero-filled tail is applied and the damaged text is given to ParseString and to the loaders of all four encodings (run index -> work item, 48 faults per item); after those, EVERY single-byte substitution (every position x eleven values: NUL, 0xff, high bit flipped, each of ( ) , : - > blank newline) of the same texts is given to ParseString and to the explicit tree loader (528 faults per item; the other three loaders call the same parser first and get byte substitutions sampled only). Sampled part: generated descriptions (names from the full legal character set, nullary rules with and without parentheses, empty sections) get a strict round trip (parse, serialise+parse, load+dump per encoding, dump/load fix-point), then their complete single-fault space, then sampled byte flips, random byte strings and splices; the load / dump pair is drawn per text from the name-preserving overloads (text or parsed description; dictionary or weak translator over a dictionary; dump through a dictionary, a strict back-translator or DumpToAutDesc + Serialize); in half of the sampled runs a second client runs a short history of explicit, word or BDD automata (value operations and the library's operations), dumps several handles, is usually aborted, and every completed dump is reloaded: what comes back must be what was dumped (word automata: also the start states as GetStartStates() reports them). Oracle for damaged text: the call returns or throws a std::exception, within the tick budget, no monitor fires, every other live handle is untouched, and on success (all names expressible) dump/load/dump is a fix-point. One evaluation = one run; distinct non-trivial = distinct damaged texts.",
     ["one start arrow per start state in generated word-automaton texts (the dump writes one start symbol per start state)",
      "the fix-point after a damaged load is demanded only when every name of the loaded automaton is expressible in the format",
      "the arbitrary-byte-string clause is sampled, not enumerated"],
@@ -106,7 +106,7 @@ RUNS_QUICK = {
  "C10": {"plain": 130000, "san": 5800},
  "C11": {"plain": 87000, "san": 4200},
  "C12": {"plain": 170000, "san": 6800},
- "C13": {"plain": 11000, "san": 230},
+ "C13": {"plain": 9000, "san": 230},
  "C14": {"plain": 170000, "san": 6400},
  "C15": {"plain": 160000, "san": 6500},
  "C17": {"plain": 19000, "san": 1000},
